@@ -110,10 +110,10 @@ double strtod(const char *p, char **endp) {
 
 
 def parse_num_fn(T):
-    anchor = {'int': r'int OptionHelper<int>::Parse\(const char \*&s, bool\)',
-              'double': r'double OptionHelper<double>::Parse\(const char \*&s, bool\)'}[T]
+    anchor = {'int': r'int OptionHelper<int>::Parse\(const char \*\s*&?\s*s, bool\)',
+              'double': r'double OptionHelper<double>::Parse\(const char \*\s*&?\s*s, bool\)'}[T]
     return Fn(SOLVER, anchor, '%s Parse_%s(const char **s_p, bool split)' % (T, T), contract=PARSE_CONTRACT % '',
-              defines={'s': '(*s_p)'}, label='mp::internal::OptionHelper<%s>::Parse' % T, nmatches=1)
+              refs={'s': 's_p'}, label='mp::internal::OptionHelper<%s>::Parse' % T, nmatches=1)
 
 
 def h_parse_num(T):
@@ -137,9 +137,9 @@ int vp_string(const char *p, long n) {
 
 
 def parse_string_fn():
-    return Fn(SOLVER, r'std::string OptionHelper<std::string>::Parse\(const char \*&s, bool splitString\)',
+    return Fn(SOLVER, r'std::string OptionHelper<std::string>::Parse\(const char \*\s*&?\s*s, bool splitString\)',
               'int Parse_string(const char **s_p, bool splitString)', contract=PARSE_CONTRACT % ', g_strings',
-              subst=[(r'std::string\(', 'vp_string(', -1)], defines={'s': '(*s_p)'},
+              subst=[(r'std::string\(', 'vp_string(', -1)], refs={'s': 's_p'},
               label='mp::internal::OptionHelper<std::string>::Parse', nmatches=1)
 
 
@@ -214,7 +214,24 @@ void harness(void) { vp_one = 1; const char *s = vp_mkstring();
                    note='modular: scanners and value parsers by their contracts')
 
 
+_drv = [None]
+
+
+def replay(lead, inputs, obs):
+    """The loop-contract counterexample is not a concrete text: search the neighbourhood natively (real ParseOptionString
+    on exactly sized heap buffers under ASan/UBSan)."""
+    import subprocess
+    from vp import native
+    if _drv[0] is None:
+        _drv[0] = native.build_driver('c11_replay.cc', 'c11_replay', native.MP_SOURCES,
+                                      ['-O0', '-g', '-fsanitize=address,undefined', '-fno-sanitize-recover=all'], tag='asan')[0]
+    p = subprocess.run([_drv[0], '--sweep'], capture_output=True, text=True, timeout=600)
+    return p.returncode != 0, (p.stdout + p.stderr)[-2500:], _drv[0] + ' --sweep'
+
+
 def harnesses(tier, seed):
     hs = [h_scanner(n) for n in SCANNERS]
     hs += [h_parse_num('int'), h_parse_num('double'), h_parse_string(), h_pos()]
+    for h in hs:
+        h.replay = replay
     return hs
